@@ -22,7 +22,7 @@ RULE = (
 MANIFEST = {
     "text": "Round-trip search: for generated molecules (all 118 elements, isotope/radical values up to 1e9, up to hundreds of atoms, symmetric and WL-hard skeletons) the emitted string is parsed back and compared with the abstract molecule by an independent isomorphism search whose witness mapping is verified edge by edge, and re-serialised to test the fixed point. Cannot prove the round-trip for all molecules.",
     "note": "Trusted: verify_mapping (colour equality + edge bijection) and the abstract model. A negative isomorphism answer for n<=10 is cross-checked with networkx VF2.",
-    "technique": "property-based testing: round-trip + isomorphism oracle independent of igraph/bliss (Hypothesis, 16 shards)",
+    "technique": "property-based testing: round-trip + isomorphism oracle independent of igraph/bliss (Hypothesis, 16 shards) + exhaustive round trip of all coloured graphs n<=5/6",
 }
 ASSUMPTIONS = ["isomorphism search budget: exhausted budget is counted as inconclusive, never as a violation"]
 
